@@ -191,11 +191,15 @@ class KindInterp(DictInterp):
                 raise Unsupported("missing arguments of %s" % fn)
             sub = type(self)(env)
             sub.functions, sub.depth, sub.host, sub.records = self.functions, self.depth + 1, self.host, self.records
+            is_gen = any(isinstance(n_, (ast.Yield, ast.YieldFrom)) for st_ in fnode.body for n_ in ast.walk(st_)
+                         if not isinstance(st_, (ast.FunctionDef, ast.ClassDef)))
+            if is_gen:
+                sub._yields = []          # a generator is evaluated eagerly: the list of what it yields (sound for pure traversals)
             try:
                 sub.run(fnode.body)
             except _Return as r:
-                return r.v
-            return None
+                return sub._yields if is_gen else r.v
+            return sub._yields if is_gen else None
         if fn in self.host and not any(isinstance(a, ast.Starred) for a in c.args):
             return self.host[fn](*[self.ev(a) for a in c.args], **{k.arg: self.ev(k.value) for k in c.keywords if k.arg})
         if isinstance(c.func, ast.Name) and fn in self.records and not any(isinstance(a, ast.Starred) for a in c.args):
@@ -219,9 +223,35 @@ class KindInterp(DictInterp):
             return r.v
         return None
 
+    _yields = None
+
     def run(self, stmts):
         rest = []
         for s in stmts:
+            if self._yields is not None and isinstance(s, ast.Expr) and isinstance(s.value, (ast.Yield, ast.YieldFrom)):
+                if rest:
+                    super().run(rest)
+                    rest = []
+                v = self.ev(s.value.value) if s.value.value is not None else None
+                if isinstance(s.value, ast.YieldFrom):
+                    if not isinstance(v, (list, tuple)):
+                        raise Unsupported("yield from a non-sequence")
+                    self._yields.extend(v)
+                else:
+                    self._yields.append(v)
+                continue
+            if self._yields is not None and isinstance(s, (ast.If, ast.For)) and any(isinstance(n_, (ast.Yield, ast.YieldFrom)) for n_ in ast.walk(s)):
+                # control flow around yields: evaluate it here so that nested yields reach this interpreter
+                if rest:
+                    super().run(rest)
+                    rest = []
+                if isinstance(s, ast.If):
+                    self.run(s.body if self.truth(s.test) else s.orelse)
+                else:
+                    for item in self.iterate(s.iter):
+                        self.bind(s.target, item)
+                        self.run(s.body)
+                continue
             if isinstance(s, (ast.FunctionDef,)):
                 if rest:
                     super().run(rest)
